@@ -10,6 +10,7 @@ import (
 	"os"
 	"sort"
 	"sync"
+	"sync/atomic"
 	"time"
 
 	"connectrpc.com/connect"
@@ -64,19 +65,22 @@ type Env struct {
 	T2Max   uint64
 	rootCtx context.Context
 
-	mu       sync.Mutex
-	tries    map[string]int
-	curTier1 string
-	reqSeq   int
-	wg       sync.WaitGroup
-	panics   []string
-	Mon      *Monitor // seam monitors (C05), may be nil
-	loopSeq  map[string]int
+	mu        sync.Mutex
+	tries     map[string]int
+	curTier1  string
+	reqSeq    int
+	wg        sync.WaitGroup
+	panics    []string
+	Mon       *Monitor // seam monitors (C05), may be nil
+	loopSeq   map[string]int
+	inRequest atomic.Bool
 	// observers
 	T2Obs StreamObserver
 	T1Obs StreamObserver
 	// probes
-	Probes map[string]int
+	Probes   map[string]int
+	execs    []ExecEvent
+	recExecs bool
 }
 
 func NewEnv(sim *Sim, disk *Disk, chain *Chain, nTier2 int, t2max uint64) *Env {
@@ -416,7 +420,9 @@ func (e *Env) RunRequest(pkg *PkgDef, spec *ReqSpec, obs StreamObserver) *RunRes
 			res.Code = connect.CodeOf(err)
 		}
 	}()
+	e.inRequest.Store(true)
 	res.Outcome = e.Sim.Drive(done, step0+MaxStepsPerRequest, IdleLimit)
+	e.inRequest.Store(false)
 	res.Steps = e.Sim.Steps() - step0
 	res.VirtTime = time.Since(t0)
 	if res.Outcome == OutDone {
@@ -465,5 +471,25 @@ func fmtStores(m map[string]StoreState) string {
 		}
 		out += fmt.Sprintf("size=%d} ", m[n].Size)
 	}
+	return out
+}
+
+// RecordExecs turns on recording of module executions (simvm hook) for the requests of this env.
+func (e *Env) RecordExecs() {
+	e.recExecs = true
+	SetExecHook(func(ev ExecEvent) {
+		if curEnv == e && e.recExecs && e.inRequest.Load() {
+			e.mu.Lock()
+			e.execs = append(e.execs, ev)
+			e.mu.Unlock()
+		}
+	})
+}
+
+func (e *Env) TakeExecs() []ExecEvent {
+	e.mu.Lock()
+	defer e.mu.Unlock()
+	out := e.execs
+	e.execs = nil
 	return out
 }
